@@ -142,6 +142,142 @@ def run(ctx):
         except Exception as e:
             viol("e2e-expression-invalid-json", text=text, error=str(e))
 
+    # rare expression -d/-k with awkward arguments: repeated names (the last one wins), no '=', empty name, '=' inside the
+    # value, a name that is the numeral of a -d position (repeated member name), quotes/backslashes/control bytes in names.
+    # Expected members from the property text alone: -d values under 0,1,.., then the -k names in ascending byte order.
+    knames = ["a", "b", "k", "0", "1", "", "x y", "q\"", "b\\s", "\u00e9", "A", "\t"]
+    kvals = [w for w in words if "," not in w]
+    n_expr = 12 if ctx["tier"] == "quick" else 120
+    for _ in range(n_expr):
+        data = [rnd.choice(kvals) for _ in range(rnd.randrange(4))]
+        data = [d for d in data if not d.startswith("-")]
+        kargs = []
+        for _ in range(rnd.randrange(6)):
+            form = rnd.randrange(5)
+            n, v = rnd.choice(knames), rnd.choice(kvals)
+            if form == 0:
+                kargs.append(n)
+            elif form == 1:
+                kargs.append("=" + v)
+            elif form == 2:
+                kargs.append(n + "=" + v + "=" + rnd.choice(kvals))
+            else:
+                kargs.append(n + "=" + v)
+        # urfave/cli (StringSliceFlag.Set) trims Unicode white space around every -d / -k value before rare sees it
+        # (and splits on commas, which the inputs here avoid): the expectation is about the arguments as delivered
+        gospace = "\t\n\v\f\r \x85\xa0\u1680\u2000\u2001\u2002\u2003\u2004\u2005\u2006\u2007\u2008\u2009\u200a\u2028\u2029\u202f\u205f\u3000"
+        table = {}
+        for a in kargs:
+            a = a.strip(gospace)
+            k, sep, v = a.partition("=")
+            table[k] = v if sep else a
+        named = sorted(table.items(), key=lambda kv: kv[0].encode("utf-8"))
+        numbered = [(str(i), d.strip(gospace)) for i, d in enumerate(data)]
+        argv = [exe, "expression", "-n"]
+        for d in data:
+            argv += ["-d", d]
+        for a in kargs:
+            argv += ["-k", a]
+        p = subprocess.run(argv + ["{.}@@@{#}@@@{.#}@@@{#.}"], stdout=subprocess.PIPE, stderr=subprocess.PIPE, timeout=60)
+        runs += 1
+        parts = p.stdout.decode("utf-8", errors="surrogateescape").split("@@@")
+        if p.returncode != 0 or len(parts) != 4:
+            viol("e2e-expression-args-failed", args=argv[2:], rc=p.returncode, stderr=p.stderr.decode("utf-8", "replace")[-300:])
+            continue
+        for text, want in zip(parts, [named, numbered, numbered + named, numbered + named]):
+            try:
+                pairs = json.loads(text, object_pairs_hook=list, strict=True)
+            except Exception as e:
+                viol("e2e-expression-args-invalid-json", args=argv[2:], text=text, error=str(e))
+                break
+            if [tuple(x) for x in pairs] != want:
+                viol("e2e-expression-args-unfaithful", args=argv[2:], text=text, want=want)
+                break
+
+    # a very long capture (the correspondence keeps values small because the model is quadratic): one line of > 1 MB
+    # with quotes, backslashes, control bytes and non-ASCII; {#} must stay valid and decode to the line
+    unit = "abc\"\\\x01\u00e90123456789\t"
+    longline = unit * (12000 if ctx["tier"] == "quick" else 70000)
+    lpath = os.path.join(work, "e2e_long.txt")
+    with open(lpath, "w", encoding="utf-8") as f:
+        f.write(longline + "\n")
+    p = subprocess.run([exe, "filter", "-m", "^(.*)$", "-e", "{#}", lpath], stdout=subprocess.PIPE, stderr=subprocess.PIPE, timeout=300)
+    runs += 1
+    try:
+        pairs = json.loads(p.stdout.decode("utf-8"), object_pairs_hook=list, strict=True)
+        if [tuple(x) for x in pairs] != [("0", longline), ("1", longline)]:
+            viol("e2e-long-capture-unfaithful", length=len(longline))
+    except Exception as e:
+        viol("e2e-long-capture-invalid-json", length=len(longline), error=str(e)[:200])
+
+    # many members: `rare expression` with thousands of -k arguments (sorted, last wins) and -d arguments
+    nk = 400 if ctx["tier"] == "quick" else 4000
+    argv = [exe, "expression", "-n"]
+    table = {}
+    for i in range(nk):
+        k, v = "k%d" % (i % (nk // 2 + 1)), "v%d" % i
+        table[k] = v
+        argv += ["-k", k + "=" + v]
+    for i in range(nk // 4):
+        argv += ["-d", "d%d" % i]
+    p = subprocess.run(argv + ["{.#}"], stdout=subprocess.PIPE, stderr=subprocess.PIPE, timeout=120)
+    runs += 1
+    try:
+        pairs = [tuple(x) for x in json.loads(p.stdout.decode("utf-8"), object_pairs_hook=list, strict=True)]
+        want = [(str(i), "d%d" % i) for i in range(nk // 4)] + sorted(table.items(), key=lambda kv: kv[0].encode())
+        if pairs != want:
+            viol("e2e-many-members-unfaithful", members=len(pairs), want=len(want))
+    except Exception as e:
+        viol("e2e-many-members-invalid-json", error=str(e)[:200])
+
+    # goroutines: the views are built by several worker goroutines at once (builder objects are locals, the escape
+    # table is a read-only package variable).  Thorough tier: the CLI built with the race detector, many workers, small
+    # batches; the race detector must stay silent and every distinct line must be counted under exactly one key.
+    assumptions = []
+    if ctx["tier"] == "thorough":
+        try:
+            from common import build_rare
+        except ImportError:
+            import importlib.util
+            spec = importlib.util.spec_from_file_location("common", os.path.join(os.path.dirname(os.path.abspath(__file__)), "common.py"))
+            common = importlib.util.module_from_spec(spec); spec.loader.exec_module(common)
+            build_rare = common.build_rare
+        rexe = build_rare(ctx, race=True)
+        distinct = ["|".join(l) for l in lines[:40]]
+        reps = 600
+        rpath = os.path.join(work, "e2e_race.txt")
+        with open(rpath, "w", encoding="utf-8") as f:
+            for _ in range(reps):
+                for d in distinct:
+                    f.write(d + "\n")
+        for margs in (matchers[0][0], matchers[1][0]):
+            p = subprocess.run([rexe, "histo", "--workers", "8", "--batch", "7", "-n", "100000"] + margs +
+                               ["-e", "{0}@@@{.#}", "--csv", "-", rpath], stdout=subprocess.PIPE, stderr=subprocess.PIPE, timeout=600)
+            runs += 1
+            err = p.stderr.decode("utf-8", "replace")
+            if "DATA RACE" in err:
+                viol("e2e-race-detected", matcher=margs, report=err[err.index("DATA RACE") - 20:][:1500])
+                continue
+            keys = {}
+            import csv, io
+            rows = list(csv.reader(io.StringIO(p.stdout.decode("utf-8", errors="surrogateescape"))))[1:]
+            for row in rows:
+                if len(row) < 2:
+                    continue
+                src = row[0].partition("@@@")[0]
+                keys.setdefault(src, []).append(row)
+            want_counts = {}
+            for d in distinct:
+                want_counts[d] = want_counts.get(d, 0) + reps
+            for d, c in want_counts.items():
+                got = keys.get(d, [])
+                if len(got) != 1 or got[0][-1] != str(c):
+                    viol("e2e-concurrent-key-split", matcher=margs, line=d, rows=got[:3], want=c)
+                    break
+    else:
+        assumptions.append("race-detector run of the views under 8 workers only in the thorough tier")
+
     return {"runs": runs, "violations": violations,
-            "assumptions": ["e2e step: Python json.loads(strict=True) as JSON oracle; inputs are valid UTF-8 "
-                            "(invalid UTF-8 is covered by the in-process correspondence)"]}
+            "assumptions": assumptions + ["rare expression: -d / -k values are compared as urfave/cli delivers them (white space "
+                                          "around a value trimmed, commas split values)", "e2e step: Python json.loads(strict=True) as JSON oracle; inputs are valid UTF-8 "
+                                          "(invalid UTF-8 is covered by the in-process correspondence)"]}
